@@ -8,7 +8,7 @@ import (
 func sorted(s []string) []string { sort.Strings(s); return s }
 
 func TestAll(t *testing.T) {
-	if Round4(3) != 18 || IfaceLocks("abc") != 3 {
+	if Round4(3) != 18 || IfaceLocks("abc") != 3 || ChanPool([]int{1, 2, 3, 4}) != 30 {
 		t.Fatal("fourth review constructs")
 	}
 	if GoIfaceVariadic() != 21 || GridGet("abc") != 3 || OnceTableGet(2) != 20 {
